@@ -430,6 +430,55 @@ def c11_int_ac(ctx, case):
               rtol=0, atol=tol * float(rf[0]), sig={"clause": "int-roundtrip"})
 
 
+# ---- sharp models: many reflection coefficients of large modulus (prediction-error ratio down to 1e-10) ------------------
+@st.composite
+def sharp_case(draw):
+    p = draw(st.integers(2, 16))
+    cplx = draw(st.booleans())
+    top = draw(st.sampled_from([0.98, 0.95, 0.9]))
+    mods = [top * draw(st.sampled_from([1.0, 0.97, 0.93, 0.9])) for _ in range(p)]
+    if cplx:
+        ph = [draw(st.floats(0, 6.283)) for _ in range(p)]
+        k = [m * np.exp(1j * a) for m, a in zip(mods, ph)]
+    else:
+        k = [m * draw(st.sampled_from([-1.0, 1.0])) for m in mods]
+    return {"k": {"re": [float(np.real(v)) for v in k], "im": [float(np.imag(v)) for v in k] if cplx else None},
+            "r0": draw(st.sampled_from([1.0, 2.5, 0.1, 10.0]))}
+
+
+@sub("C11.sharp", strategy=sharp_case(), quick=400, thorough=8000,
+     doc="admissible sets with many |k| in 0.8..0.98 (kappa = 1/prod(1-|k|^2) up to 1e10, all within the stated modulus bound): "
+         "ac->poly and ac->rc still return (no 'singular matrix'), |k|<1, error>0, and agree with the generating set within "
+         "1e-10*kappa (unchanged code: <= 5.4e-12*kappa over 3000 sets)")
+def c11_sharp(ctx, case):
+    k = gen.kvec(case["k"]).astype(complex)
+    cplx = case["k"]["im"] is not None
+    kappa = 1.0 / float(np.prod(1 - np.abs(k) ** 2))
+    ctx.cls("complex" if cplx else "real", "kappa<1e4" if kappa < 1e4 else ("kappa<1e7" if kappa < 1e7 else "kappa<=1e10"))
+    if kappa > 1e10:
+        ctx.exclude("prediction-error ratio below 1e-10: the recursion itself is decided by rounding")
+        return
+    ctx.nontrivial(kappa >= 1e4)
+    r, a, P = ref.inverse_levinson(k, float(case["r0"]))
+    if not cplx:
+        r = r.real.copy()
+    sig = {"clause": "sharp"}
+    ctx.sig_on_exception = sig
+    A, e = lp.ac2poly(r)
+    k1, r0 = lp.ac2rc(r)
+    A, k1 = np.asarray(A), np.asarray(k1)
+    tol = 1e-10 * kappa
+    ctx.check(np.all(np.isfinite(A)) and np.all(np.isfinite(k1)) and np.isfinite(e), "non-finite output for an admissible set", sig=sig)
+    ctx.check(float(np.max(np.abs(k1))) < 1.0 and np.real(e) > 0, "ac->rc returned |k| >= 1 or a non-positive error (kappa %.3g)" % kappa, sig=sig)
+    if tol < 0.05:
+        ctx.check(float(np.max(np.abs(k1 - k))) <= tol, "ac->rc differs from the generating coefficients by %.3g (allowed %.3g = 1e-10 kappa)"
+                  % (float(np.max(np.abs(k1 - k))), tol), sig=sig)
+        sc = max(1.0, float(np.max(np.abs(a))))
+        ctx.check(float(np.max(np.abs(A[1:] - a))) <= tol * sc, "ac->poly differs from the step-up polynomial by %.3g (allowed %.3g)"
+                  % (float(np.max(np.abs(A[1:] - a))), tol * sc), sig=sig)
+        ctx.check(abs(np.real(e) / P - 1) <= 10 * tol, "final error %r, expected %r" % (e, P), sig=sig)
+
+
 # ---- call-form invariance (documented parameter names) ----------------------------
 from vlib import kwcheck as _kw   # noqa: E402
 
